@@ -102,6 +102,18 @@ func drawQuorum(t *rapid.T, p *policy.Policy, within uint64, label string) (mask
 	return mask, minimal
 }
 
+// minimalWithin shrinks the set of the given holders (qualified) to a minimal qualified set, trying
+// to drop holders in the given order.
+func minimalWithin(p *policy.Policy, order []int) uint64 {
+	mask := policy.MaskOf(order...)
+	for _, i := range order {
+		if p.Qualified(mask &^ (1 << uint(i))) {
+			mask &^= 1 << uint(i)
+		}
+	}
+	return mask
+}
+
 // drawPrev draws the set of previous holders that drives an epoch change: all of `within`, or a
 // qualified subset of it. (Every qualified set has >= 2 members: policy.Draw returns no policy
 // with a qualified singleton, and the library's unanimity structure over prev needs two.)
@@ -110,6 +122,10 @@ func drawPrev(t *rapid.T, p *policy.Policy, within uint64) (mask uint64, mode st
 		return within, "all"
 	}
 	mask, _ = drawQuorum(t, p, within, "prev")
+	if mask == within && properSubsetExists(p, within) {
+		// the extras filled the set up (frequent for small n): take a minimal quorum instead
+		mask = minimalWithin(p, rapid.Permutation(policy.Members(within)).Draw(t, "prevMinimalOrder"))
+	}
 	if mask == within {
 		return mask, "all"
 	}
@@ -434,6 +450,17 @@ func (m *machine) checkMixReconstruct(t *rapid.T, what string, old *epoch) {
 	}
 }
 
+// drawPolicy draws a policy; rapid's small-value bias makes policy.Draw return "rigid" policies
+// (only the full holder set is qualified: n = 2, unanimity, t = n ...) most of the time, in which
+// nobody can be recovered and no subset can drive a step, so a rigid draw is retried up to twice.
+func drawPolicy(t *rapid.T, maxN int) *policy.Policy {
+	p := policy.Draw(t, policy.Opts{MaxN: maxN})
+	for i := 0; i < 2 && !properSubsetExists(p, p.Full()); i++ {
+		p = policy.Draw(t, policy.Opts{MaxN: maxN})
+	}
+	return p
+}
+
 // properSubsetExists: some qualified set strictly inside `within`.
 func properSubsetExists(p *policy.Policy, within uint64) bool {
 	for _, i := range policy.Members(within) {
@@ -600,7 +627,7 @@ func (m *machine) redistribute(t *rapid.T) {
 	}
 	m.steps++
 	cp, cids := m.cur.p, m.cur.ids
-	np := policy.Draw(t, policy.Opts{MaxN: m.maxN})
+	np := drawPolicy(t, m.maxN)
 	// how many current holders stay
 	maxKeep := len(cids)
 	if np.N < maxKeep {
@@ -915,7 +942,7 @@ func TestHistory(t *testing.T) {
 		m.limit = rapid.IntRange(3, maxSteps).Draw(t, "steps")
 
 		// epoch 0: trusted dealing
-		p := policy.Draw(t, policy.Opts{MaxN: maxN})
+		p := drawPolicy(t, maxN)
 		regime := rapid.SampledFrom([]string{policy.Ordinal, policy.Sparse, policy.Large}).Draw(t, "regime")
 		ids := policy.DrawIDs(t, p, regime)
 		if p.Family == policy.Hier && policy.TassaVerdict(p, ids, g.Order()) != 1 {
